@@ -4,7 +4,7 @@
   labels: (go t) (batch k item p) (chain t (p*)) (fin t val err) (idle) (flush (k (val err)*)*)
           (recvb t) (drain t) (iret) (ret) (release t)            -- err is 0|1
   reply:  (ok (next n) (phase ph) (running t*) (blocked t*) (pending (k item*)*)
-              (calls (wave k (item*) (dest*))*) (delivered (p val err)*) (destfull b) (crashed b))
+              (calls (wave k (item*) (dest*))*) (delivered (p val err)*) (orphaned p*) (destfull b) (crashed b))
         | (reject i)        -- label number i (0-based) is not a step of the model
         | bad-op
 -/
@@ -58,6 +58,7 @@ def render (s : St) : String :=
       Sexp.list [Sexp.ofNat c.wave, Sexp.ofNat c.key, Sexp.list (nats c.items), Sexp.list (nats c.dests)]),
     Sexp.node "delivered" (s.delivered.reverse.map fun x =>
       Sexp.list [Sexp.ofNat x.1, Sexp.ofNat x.2.val, Sexp.ofNat (if x.2.err then 1 else 0)]),
+    Sexp.node "orphaned" (nats s.orphaned),
     Sexp.node "destfull" [Sexp.ofBool s.destFull],
     Sexp.node "crashed" [Sexp.ofBool s.crashed]])
 
